@@ -492,6 +492,6 @@ def check(v, tier):
                     '(default variant over {unit,tuple,named}^V, union field in four marker forms, Deref / DerefMut / Into field incl. 0 / 2 / 3 same-typed candidates), attribute of a trait not educed '
                     '(every trait x host set x field / variant), unknown trait, unknown or misplaced parameter at type / variant / field level, name on positionally shown fields (6 spellings x 4 '
                     'shapes), union fields, unions without unsafe / unsafe not first / unsupported traits, unit variants under Deref / DerefMut / Into, nameless empty shapes under Debug; positions '
-                    'first / middle / last; oracle: rustc reports an educe diagnostic located in the case (accepted, panicked, or failing only later in the compiler = violation); every valid twin '
+                    'first / middle / last, and every pair of positions on five-field elements for rank and marker duplicates; oracle: rustc reports an educe diagnostic located in the case (accepted, panicked, or failing only later in the compiler = violation); every valid twin '
                     '(construct removed) must not be refused; non-trivial = distinct diagnostic stems observed',
                     {'bounds': {'tier': tier, 'offending_constructs_per_state': 1}})
